@@ -83,6 +83,11 @@ impl Ctx {
             self.api.db_exec_mut(owner, "v1", &[ins(0xc)]).await.map_err(e)?;
         }
         self.as_user(1);
+        // a victim whose name EXTENDS a tested valid name with a dot ("okname" is one of the names every operation is tried on):
+        // an operation on `okname` must not touch the files of `okname.v2`
+        self.api.db_add("user1", "okname.v2", DbKind::Mapped).await.map_err(e)?;
+        self.api.db_exec_mut("user1", "okname.v2", &[ins(0x21)]).await.map_err(e)?;
+        if with_backup { self.api.db_backup("user1", "okname.v2").await.map_err(e)?; }
         self.api.db_add("user1", "src", DbKind::Mapped).await.map_err(e)?;
         self.api.db_exec_mut("user1", "src", &[ins(0x5)]).await.map_err(e)?;
         if with_backup { self.api.db_backup("user1", "src").await.map_err(e)?; }
@@ -295,7 +300,8 @@ pub async fn run(server_bin: &str, seed: u64, extra: usize, out: &str, mode: &st
             if !outside.is_empty() {
                 oracle.push(format!("file_outside_owner_dir {desc} outside=[{}]", outside.iter().map(|s| esc(s)).collect::<Vec<_>>().join(" ")));
             }
-            let mut victim_files: Vec<String> = ["v1", ".v1", "backups/v1.bak", "backups/v1.log", "audit/v1.log"].iter().map(|f| format!("data/user1/{f}")).collect();
+            let mut victim_files: Vec<String> = ["v1", ".v1", "backups/v1.bak", "backups/v1.log", "audit/v1.log",
+                                                 "okname.v2", ".okname.v2", "backups/okname.v2.bak", "backups/okname.v2.log", "audit/okname.v2.log"].iter().map(|f| format!("data/user1/{f}")).collect();
             if op != "rename" { victim_files.extend(["src", ".src", "backups/src.bak", "backups/src.log", "audit/src.log"].iter().map(|f| format!("data/user1/{f}"))); }
             if name != "v1" && name != "src" {
                 let hit: Vec<&&String> = touched.iter().filter(|p| victim_files.contains(p)).collect();
